@@ -44,7 +44,7 @@ static Val smallVal(Rng& r, const FSpec& fs, int cls) {
         default: return Val::in(r.chance(1, 2) ? r.range(-40, 40) : r.range(-30000, 30000)); }
 }
 
-static Table genTable(Rng& r, const World& w, const FSpec& fs, int cls, bool nowhereZero, int signMode = 0, int forceShape = -1) {
+static Table genTable(Rng& r, const World& w, const FSpec& fs, int cls, bool nowhereZero, int signMode = 0, int forceShape = -1, int forceSub = -1) {
     std::vector<Val> alpha; int k = r.range(2, 5);
     for (int i = 0; i < k; i++) alpha.push_back(smallVal(r, fs, cls));
     // the neutral and absorbing elements of the operations are where the shortcuts live: make 1, -1 and 0 common values
@@ -54,7 +54,7 @@ static Table genTable(Rng& r, const World& w, const FSpec& fs, int cls, bool now
     if (signMode == 1) { for (auto& v : alpha) { if (v.k == Val::R) v.r = v.r == 0 ? 1.5 : std::fabs(v.r); else v.i = v.i == 0 ? 3 : std::labs(v.i); } }   // all stored values positive
     if (signMode == 2) { for (auto& v : alpha) { if (v.k == Val::R) v.r = v.r == 0 ? -1.5 : -std::fabs(v.r); else v.i = v.i == 0 ? -3 : -std::labs(v.i); } }   // all negative
     if (fs.isEVP() && cls != 2) for (auto& v : alpha) if (v.i < 0 && r.chance(1, 2)) v.i = -v.i;   // EV+ mostly non-negative but negatives allowed
-    Table t = randomTable(r, w, fs, alpha, forceShape);
+    Table t = randomTable(r, w, fs, alpha, forceShape, forceSub);
     (void)nowhereZero;
     return t;
 }
@@ -221,7 +221,7 @@ static void run(Ctx& c) {
             int which = int(r.below(4));
             user_unary_factory* UF[] = {&F_affine, &F_abs, &F_sqm, &F_even};
             // one third of the cases each: every stored value positive / negative, so that an implicit 0 (default, skipped identity) is the extreme
-            Table ta = genTable(r, w, P.s[size_t(fa)], int(r.below(2)), false, int(r.below(3)), (rel && r.chance(1, 2)) ? 6 : -1);   // relations: half the tables are identity / block-diagonal patterns
+            Table ta = genTable(r, w, P.s[size_t(fa)], int(r.below(2)), false, int(r.below(3)), (rel && r.chance(1, 2)) ? 6 : -1, r.chance(1, 2) ? 2 : -1);   // relations: half the tables are identity patterns, half of those block-diagonal
             dd_edge ea(P.f[size_t(fa)]);
             buildChecked(w, P.f[size_t(fa)], P.s[size_t(fa)], ta, ea, "C05");
             int fcb = int(r.below(PB.f.size()));
